@@ -10,6 +10,7 @@ import (
 	"os"
 	"path/filepath"
 	"runtime"
+	"sync"
 	"time"
 
 	"github.com/jhalter/mobius/hotline"
@@ -35,6 +36,7 @@ type Op struct {
 	IP       string   `json:"ip,omitempty"`
 	Perm     bool     `json:"perm,omitempty"`
 	Unix     int64    `json:"unix,omitempty"`
+	Burst    []Op     `json:"burst,omitempty"` // op "burst": these updates of the same store are made at the same time, on one store object
 }
 
 func fail(code int, f string, a ...any) {
@@ -44,68 +46,113 @@ func fail(code int, f string, a ...any) {
 
 // Apply performs op on the stores found in dir (exported logic shared with the harness
 // through copy: the harness applies the prefix of a sequence with the same function).
+// Apply performs op on the store found in dir.  A "burst" opens the store once and applies its
+// parts from as many goroutines at the same time (the way concurrent connections use one store).
 func Apply(dir string, op Op) error {
-	switch op.Store {
+	do, err := open(dir, op.Store)
+	if err != nil {
+		return fmt.Errorf("load: %w", err)
+	}
+	if op.Op != "burst" {
+		return do(op)
+	}
+	var wg sync.WaitGroup
+	errs := make([]error, len(op.Burst))
+	start := make(chan struct{})
+	for i, sub := range op.Burst {
+		wg.Add(1)
+		go func() {
+			defer wg.Done()
+			<-start
+			errs[i] = do(sub)
+		}()
+	}
+	close(start)
+	wg.Wait()
+	for _, e := range errs {
+		if e != nil {
+			return e
+		}
+	}
+	return nil
+}
+
+// open loads one store and returns the function that applies a single update to it.
+func open(dir, store string) (func(Op) error, error) {
+	switch store {
 	case "board":
 		fn, err := verifhooks.NewFlatNews(filepath.Join(dir, "MessageBoard.txt"))
 		if err != nil {
-			return fmt.Errorf("load: %w", err)
+			return nil, err
 		}
-		_, err = fn.Write([]byte(op.Text))
-		return err
+		var mu sync.Mutex // the server serialises board writes with Server.TextMU
+		return func(op Op) error {
+			mu.Lock()
+			defer mu.Unlock()
+			_, err := fn.Write([]byte(op.Text))
+			return err
+		}, nil
 	case "news":
 		tn, err := verifhooks.NewThreadedNewsYAML(filepath.Join(dir, "ThreadedNews.yaml"))
 		if err != nil {
-			return fmt.Errorf("load: %w", err)
+			return nil, err
 		}
-		switch op.Op {
-		case "bundle":
-			return tn.CreateGrouping(op.Path, op.Name, hotline.NewsBundle)
-		case "category":
-			return tn.CreateGrouping(op.Path, op.Name, hotline.NewsCategory)
-		case "post":
-			return tn.PostArticle(op.Path, op.Parent, hotline.NewsArtData{Title: op.Title, Poster: "poster", Data: op.Body, Date: [8]byte{7, 208, 0, 0, 0, 0, 0, 1}})
-		case "delart":
-			return tn.DeleteArticle(op.Path, op.ID, false)
-		case "delitem":
-			return tn.DeleteNewsItem(op.Path)
-		}
+		return func(op Op) error {
+			switch op.Op {
+			case "bundle":
+				return tn.CreateGrouping(op.Path, op.Name, hotline.NewsBundle)
+			case "category":
+				return tn.CreateGrouping(op.Path, op.Name, hotline.NewsCategory)
+			case "post":
+				return tn.PostArticle(op.Path, op.Parent, hotline.NewsArtData{Title: op.Title, Poster: "poster", Data: op.Body, Date: [8]byte{7, 208, 0, 0, 0, 0, 0, 1}})
+			case "delart":
+				return tn.DeleteArticle(op.Path, op.ID, false)
+			case "delitem":
+				return tn.DeleteNewsItem(op.Path)
+			}
+			return fmt.Errorf("unknown op %+v", op)
+		}, nil
 	case "acct":
 		am, err := verifhooks.NewYAMLAccountManager(filepath.Join(dir, "Users"))
 		if err != nil {
-			return fmt.Errorf("load: %w", err)
+			return nil, err
 		}
-		var acc hotline.AccessBitmap
-		copy(acc[:], op.Access)
-		switch op.Op {
-		case "create":
-			return am.Create(hotline.Account{Login: op.Login, Name: op.Name, Password: op.Password, Access: acc})
-		case "update", "rename":
-			a := am.Get(op.Login)
-			if a == nil {
-				return fmt.Errorf("no such account %q", op.Login)
+		return func(op Op) error {
+			var acc hotline.AccessBitmap
+			copy(acc[:], op.Access)
+			switch op.Op {
+			case "create":
+				return am.Create(hotline.Account{Login: op.Login, Name: op.Name, Password: op.Password, Access: acc})
+			case "update", "rename":
+				a := am.Get(op.Login)
+				if a == nil {
+					return fmt.Errorf("no such account %q", op.Login)
+				}
+				a.Name, a.Access = op.Name, acc
+				nl := op.Login
+				if op.Op == "rename" {
+					nl = op.NewLogin
+				}
+				return am.Update(*a, nl)
+			case "delete":
+				return am.Delete(op.Login)
 			}
-			a.Name, a.Access = op.Name, acc
-			nl := op.Login
-			if op.Op == "rename" {
-				nl = op.NewLogin
-			}
-			return am.Update(*a, nl)
-		case "delete":
-			return am.Delete(op.Login)
-		}
+			return fmt.Errorf("unknown op %+v", op)
+		}, nil
 	case "ban":
 		bf, err := verifhooks.NewBanFile(filepath.Join(dir, "Banlist.yaml"))
 		if err != nil {
-			return fmt.Errorf("load: %w", err)
+			return nil, err
 		}
-		if op.Perm {
-			return bf.Add(op.IP, nil)
-		}
-		t := time.Unix(op.Unix, 0).UTC()
-		return bf.Add(op.IP, &t)
+		return func(op Op) error {
+			if op.Perm {
+				return bf.Add(op.IP, nil)
+			}
+			t := time.Unix(op.Unix, 0).UTC()
+			return bf.Add(op.IP, &t)
+		}, nil
 	}
-	return fmt.Errorf("unknown op %+v", op)
+	return nil, fmt.Errorf("unknown store %q", store)
 }
 
 func main() {
